@@ -525,6 +525,25 @@ def Op.progNodeFirst : Op → Prog
   | .createNode l v => createNodeProgOld l v
   | op => op.prog
 
+/-- phase 3 of `batch_create_edges` with the per-edge body appending to the adjacency lists WITHOUT the
+    list lock ("the batch is one writer for phase 3": the get + put of `add_edge_to_list` called directly,
+    `createEdgeFromOld`).  Not the code: the model variant that mirrors that mistake (regression witness
+    `batch_create_edges_without_stripe_lock_witness`). -/
+def bceLoopNoLock (start : Nat) : List EdgeIn → Nat → Prog → Prog
+  | [], _, c => c
+  | e :: es, i, c =>
+    (createEdgeFromOld (start + i) e.a e.b e.d e.ty e.v).bind fun _ => bceLoopNoLock start es (i + 1) c
+
+def batchCreateEdgesProgNoLock (items : List EdgeIn) : Prog :=
+  if items.isEmpty then .done (.ids 0 0)
+  else bceValidate items 0 <|
+    .allocEs items.length fun start => bceLoopNoLock start items 0 (.done (.ids start items.length))
+
+/-- every operation as it is, except that `batch_create_edges` appends to the lists without the lock -/
+def Op.progBatchWithoutStripeLock : Op → Prog
+  | .batchCreateEdges items => batchCreateEdgesProgNoLock items
+  | op => op.prog
+
 /-! ### semantics -/
 
 /-- one atomic store call (or counter increment); lock-oblivious (`acq`/`rel` are skipped): the
